@@ -323,6 +323,28 @@ pub mod onion {
 		(p.data, p.attribution_data)
 	}
 
+	/// `process_fulfill_attribution_data`: what a hop does to the attribution data of an
+	/// `update_fulfill_htlc` on the way back (`None` = the final hop originates it).
+	pub fn process_fulfill_attribution_data(
+		attribution_data: Option<AttributionData>, shared_secret: &[u8; 32], hold_time: u32,
+	) -> AttributionData {
+		onion_utils::process_fulfill_attribution_data(attribution_data, shared_secret, hold_time)
+	}
+
+	/// Sender side: `decode_fulfill_attribution_data` (hold times of the hops, first hop first).
+	pub fn decode_fulfill_attribution_data<T: secp256k1::Signing, L: Logger>(
+		secp_ctx: &Secp256k1<T>, logger: &L, path: &Path, session_priv: &SecretKey,
+		attribution_data: AttributionData,
+	) -> Vec<u32> {
+		onion_utils::decode_fulfill_attribution_data(
+			secp_ctx,
+			logger,
+			path,
+			session_priv,
+			attribution_data,
+		)
+	}
+
 	/// The fields of `DecodedOnionFailure` (crate-private) the sender learns from a failure.
 	pub struct DecodedFailure {
 		pub short_channel_id: Option<u64>,
